@@ -465,6 +465,16 @@ def rule_forms(repo, rep):
 
 
 def check(repo, rep, tier):
+  # the prior whose inverse enters the objective is the documented one
+  # (option forms of _initialize_metric_mahalanobis, strictly PD, computed
+  # from the training pairs): rules shared with C20
+  from . import c20
+  c20.rule_metric_init(repo, rep)
+  before = len(rep.obs)
+  c20.rule_strict_sites(repo, rep)
+  c20.rule_prior_inputs(repo, rep)
+  rep.obs[before:] = [o for o in rep.obs[before:]
+                      if o['construct'].startswith('SDML')]
   rule_problem(repo, rep)
   rule_forms(repo, rep)
   rule_vetting(repo, rep)
